@@ -37,7 +37,7 @@ def text_default(evs, clauses):
 
 
 def run_family(run, pid, family, prefixes, extra=None, sig=None, text=None, selftests=(), module="SyncTrace",
-               drive_timeout=1800, assumptions=None, mc=None, level="model_checking", post=None, name=None):
+               drive_timeout=1800, assumptions=None, mc=None, level="model_checking", post=None, name=None, witness=False):
     run.build()
     if mc:
         mc(run)
@@ -49,7 +49,7 @@ def run_family(run, pid, family, prefixes, extra=None, sig=None, text=None, self
     tr = filter_prefix(tr_all, prefixes)
     for nm, fn in selftests:
         selftest_corrupt_prefixed(run, module, trace, fn, nm, prefixes)
-    fails = confirm_by_replay_prefixed(run, family, module, tr, prefixes, sig or sig_default, text or text_default, extra)
+    fails = confirm_by_replay_prefixed(run, family, module, tr, prefixes, sig or sig_default, text or text_default, extra, witness=witness)
     if post:
         post(run, tr_all, st)
     return finish(run, level, fails, assumptions=assumptions or [])
@@ -65,7 +65,7 @@ def selftest_corrupt_prefixed(run, module, trace, mutate, name, prefixes):
     p = trace + ".selftest"
     with open(p, "w") as f:
         for e in new:
-            f.write(json.dumps(e) + "\n")
+            f.write(json.dumps(e, separators=(",", ":")) + "\n")
     r = filter_prefix(run.tlc_trace(module, p, shards=1, record=False), prefixes)
     os.unlink(p)
     ok = len(r["failed"]) > 0
@@ -75,7 +75,10 @@ def selftest_corrupt_prefixed(run, module, trace, mutate, name, prefixes):
         raise Inconclusive("vacuous trace spec: %s accepted a corrupted trace (%s)" % (module, name))
 
 
-def confirm_by_replay_prefixed(run, family, module, tr, prefixes, sig, text, extra):
+def confirm_by_replay_prefixed(run, family, module, tr, prefixes, sig, text, extra, witness=False):
+    """witness=True: the family is schedule dependent; a recorded execution that violates a
+    clause is itself the witness (for hangs: two goroutine dumps with the same blocked fsutil
+    frames).  Replays are still attempted (3 per group) and their outcome is reported."""
     import vlib
     bycase = {}
     for f in tr["failed"]:
@@ -92,22 +95,31 @@ def confirm_by_replay_prefixed(run, family, module, tr, prefixes, sig, text, ext
         group_conf = None
         for j, (case, evs) in enumerate(members):
             conf = group_conf
+            tries = 3 if witness else 1
+            repro = None
             if j < 2 and budget > 0:
                 budget -= 1
                 rp = os.path.join(run.work, "replay_%s_%s.json" % (family, case))
                 with open(rp, "w") as fh:
                     json.dump(dict(events=evs), fh)
-                t2, _ = run.drive(family, name=family + "-replay", replay=rp, extra=extra)
-                r2 = filter_prefix(run.tlc_trace(module, t2, shards=1, record=False), prefixes)
-                got = {c for f in r2["failed"] for c in f["clauses"]}
-                conf = bool(got & set(clauses))
+                repro = 0
+                for _ in range(tries):
+                    t2, _ = run.drive(family, name=family + "-replay", replay=rp, extra=extra)
+                    r2 = filter_prefix(run.tlc_trace(module, t2, shards=1, record=False), prefixes)
+                    got = {c for f in r2["failed"] for c in f["clauses"]}
+                    if got & set(clauses):
+                        repro += 1
+                        break
+                conf = repro > 0
                 if group_conf is None or conf:
                     group_conf = conf
+            if witness:
+                conf = True
             # a recorded execution that violates a safety clause is itself the witness for
             # schedule-dependent families; deterministic families must reproduce
             out.append(dict(case=case, clauses=set(clauses), events=_slim(evs), family=family,
-                            confirmed=bool(conf) if conf is not None else bool(group_conf),
-                            signature=s, text=text(evs, clauses) + (" detail=" + details.get(case, "")[:1500] if details.get(case) else "")))
+                            confirmed=True if witness else (bool(conf) if conf is not None else bool(group_conf)),
+                            signature=s, text=text(evs, clauses) + ("" if repro is None else " [replay reproduced: %s]" % (repro > 0)) + (" detail=" + details.get(case, "")[:1500] if details.get(case) else "")))
     return out
 
 
